@@ -68,6 +68,7 @@ type stressResult struct {
 	NonLin    string         `json:"non_linearizable,omitempty"`
 	Hung      bool           `json:"store_hung,omitempty"`
 	Overlap   int            `json:"histories_with_overlap,omitempty"`
+	Problems  []string       `json:"problems,omitempty"`
 }
 
 func envDur(name string, def time.Duration) time.Duration {
@@ -90,6 +91,8 @@ func runC20Child(c *Ctx) {
 		res = linHistories(c.Seed, dur)
 	case "first":
 		res = firstRequests(c.Seed, dur)
+	case "startup":
+		res = startups(c.Seed, dur)
 	default:
 		fmt.Fprintln(os.Stderr, "C20child: unknown mode")
 		os.Exit(2)
@@ -454,6 +457,75 @@ func stressServer(seed int64, dur time.Duration, nobcrypt bool) stressResult {
 			}
 			sort.Strings(res.Stuck)
 			return res // the wedged goroutines are abandoned
+		}
+	}
+	return res
+}
+
+// ---- start-up over a pre-populated store ----
+// samlidp.New reads every stored service and registers it: a restart or a second
+// replica starts over a store that is not empty.  New must return (deadline) and
+// the new server must answer SSO for every stored service.
+func startups(seed int64, dur time.Duration) stressResult {
+	res := stressResult{Ops: map[string]int{}, Workers: map[string]int{}}
+	deadline := time.Now().Add(dur)
+	now := time.Now()
+	for round := 0; time.Now().Before(deadline) || round < 4; round++ {
+		n := []int{0, 1, 2, 5}[round%4]
+		st := &samlidp.MemoryStore{}
+		_ = st.Put("/users/alice", samlidp.User{Name: "alice", Email: "alice@example.com"})
+		_ = st.Put("/sessions/sess1", &saml.Session{ID: "sess1", CreateTime: now, ExpireTime: now.Add(time.Hour), Index: "i1",
+			NameID: "alice@example.com", UserName: "alice", UserEmail: "alice@example.com"})
+		for k := 1; k <= n; k++ {
+			var md saml.EntityDescriptor
+			if err := xml.Unmarshal([]byte(spMetadataXML(entityOf(k), []string{acsOf(k)})), &md); err != nil {
+				fmt.Fprintln(os.Stderr, "C20child: metadata:", err)
+				os.Exit(2)
+			}
+			_ = st.Put(fmt.Sprintf("/services/sp%d", k), &samlidp.Service{Name: fmt.Sprintf("sp%d", k), Metadata: md})
+			_ = st.Put(fmt.Sprintf("/shortcuts/sc%d", k), &samlidp.Shortcut{Name: fmt.Sprintf("sc%d", k), ServiceProviderID: entityOf(k)})
+		}
+		keys, _ := st.List("/")
+		sort.Strings(keys)
+		what := fmt.Sprintf("samlidp.New over a store holding %d service(s) [keys: %s]", n, strings.Join(keys, " "))
+		res.Workers[fmt.Sprintf("services=%d", n)]++
+		res.Rounds++
+		srv, err, hung, pn := startServer(st, round%8 >= 4)
+		res.Ops["samlidp.New"]++
+		res.Total++
+		switch {
+		case hung:
+			res.Deadlock = true
+			res.Dump = stuckDump()
+			res.Stuck = []string{what + ": did not return within " + startupDeadline.String()}
+			return res
+		case pn != nil:
+			res.Panics = append(res.Panics, fmt.Sprintf("%s: panic: %v", what, pn))
+			return res
+		case err != nil:
+			res.Problems = append(res.Problems, fmt.Sprintf("%s: %v", what, err))
+			return res
+		}
+		e := &stressEnv{srv: srv, store: st, now: now, nobcrypt: true, cookie: "sess1"}
+		for k := 1; k <= n; k++ {
+			hungReq, p := timedServe(e, reqSpec{method: "GET", path: "/metadata"})
+			if hungReq || p != nil {
+				res.Deadlock, res.Dump = hungReq, stuckDump()
+				res.Stuck = []string{what + ": then GET /metadata did not return"}
+				return res
+			}
+			rec, p2 := serve(srv, reqSpec{method: "POST", path: "/sso", cookie: "sess1",
+				form: url.Values{"SAMLRequest": {authnRequestB64(entityOf(k), acsOf(k), "id-st", now)}}})
+			res.Ops["POST /sso after start-up"]++
+			res.Total++
+			if p2 != nil {
+				res.Panics = append(res.Panics, fmt.Sprintf("%s: SSO for sp%d panicked: %v", what, k, p2))
+			} else if rec.status() != 200 || !strings.Contains(rec.body.String(), `name="SAMLResponse"`) {
+				res.Problems = append(res.Problems, fmt.Sprintf("%s: SSO for stored service sp%d answered %d without an assertion", what, k, rec.status()))
+			}
+		}
+		if len(res.Problems) > 0 || len(res.Panics) > 0 {
+			return res
 		}
 	}
 	return res
@@ -873,12 +945,14 @@ func runC20(c *Ctx) {
 		{name: "stress", bin: exe, mode: "stress", dur: dStress},
 		{name: "store_histories", bin: exe, mode: "lin", dur: dLin},
 		{name: "first_requests", bin: exe, mode: "first", dur: dFirst},
+		{name: "startup", bin: exe, mode: "startup", dur: 2 * time.Second},
 	}
 	if raceBin != "" {
 		jobs = append(jobs,
 			&job{name: "race_stress", bin: raceBin, mode: "stress", dur: dRaceStress, env: []string{"C20_NOBCRYPT=1", "GORACE=halt_on_error=0 exitcode=0"}},
 			&job{name: "race_store_histories", bin: raceBin, mode: "lin", dur: dRaceLin, env: []string{"GORACE=halt_on_error=0 exitcode=0"}},
-			&job{name: "race_first_requests", bin: raceBin, mode: "first", dur: dFirst, env: []string{"GORACE=halt_on_error=0 exitcode=0"}})
+			&job{name: "race_first_requests", bin: raceBin, mode: "first", dur: dFirst, env: []string{"GORACE=halt_on_error=0 exitcode=0"}},
+			&job{name: "race_startup", bin: raceBin, mode: "startup", dur: 2 * time.Second, env: []string{"GORACE=halt_on_error=0 exitcode=0"}})
 		c.Count("race_detector/available")
 	} else {
 		c.Count("race_detector/unavailable")
@@ -929,7 +1003,10 @@ func runC20(c *Ctx) {
 		}
 		add(j.name+"/completes", true, in, map[string]any{"requests": o.res.Total, "histories": o.res.Histories})
 		switch j.mode {
-		case "stress", "first":
+		case "stress", "first", "startup":
+			if j.mode == "startup" {
+				add(j.name+"/serves_every_stored_service", len(o.res.Problems) == 0, in, map[string]any{"problems": o.res.Problems, "starts": o.res.Rounds})
+			}
 			add(j.name+"/no_deadlock", !o.res.Deadlock, in, map[string]any{"deadlock": o.res.Deadlock,
 				"watchdog": watchdog.String(), "per_request_deadline": reqDeadline.String(), "requests_in_flight": o.res.Stuck, "goroutines": o.res.Dump, "requests_completed": o.res.Total})
 			add(j.name+"/no_panic", len(o.res.Panics) == 0, in, map[string]any{"panics": o.res.Panics})
